@@ -74,13 +74,8 @@ def run_unit(tpath, repo_root, seed, build_dir=BUILD, tag='', canary=None, expan
     r = {'template': tpath, 'status': 'ok', 'failures': [], 'frontend': [], 'resource': [], 'functions': [], 'wall_s': 0.0,
          'reason': None}
     ch = changed_assumed_functions(os.path.splitext(os.path.basename(tpath))[0], repo_root)
-    if ch:
-        # a stub of this unit assumes the behaviour of a real function that has changed: nothing the unit proves rests on the
-        # code as it is now - undecided, never silently trusted and never an alarm
-        r['status'] = 'undecided'
-        r['reason'] = 'assumed function changed: %s (a stub of this unit carries an assumed contract written for the pinned text)' % '; '.join(ch)
-        r['ub'] = None
-        return r
+    # (a stub of this unit assumes the behaviour of a real function that has changed: what the unit proves no longer rests on the code as
+    # it is - when nothing else fails the unit is undecided, never silently trusted and never an alarm; a failing obligation is still reported)
     try:
         ub = weave.build_unit(tpath, repo_root, canary=canary)
     except weave.WeaveError as e:
@@ -139,7 +134,9 @@ def run_unit(tpath, repo_root, seed, build_dir=BUILD, tag='', canary=None, expan
         r['status'] = 'undecided'
         r['reason'] = 'verus reported failure without a mapped diagnostic'
     # lifted blocks left out of the unit (lost anchors): without a failure elsewhere the unit is undecided
-    r['left_out'] = getattr(ub, 'left_out', None) or []
+    r['left_out'] = list(getattr(ub, 'left_out', None) or [])
+    for c in ch:
+        r['left_out'].append({'alias': c, 'reason': 'a real function whose behaviour a stub of this unit assumes (contracts/assumed_functions.json) no longer has the pinned text'})
     # vacuity: every extracted fn must appear in the function breakdown
     if r['status'] in ('ok', 'fail'):
         names = [f['function'] for f in r['functions']]
